@@ -147,3 +147,16 @@ func ghostTimerPrefix(kg uint16) []byte { return []byte{byte(kg >> 8), byte(kg),
 //@   nosafety
 //@   requires req != nil
 //@   ensures result == nil ==> o.checkpoint == nil
+
+// alignSender decides, under the lock, whether a sender has to wait: exactly
+// the senders whose barrier for the open checkpoint has already arrived.
+//@ func checkpoint.alignSender
+//@   property C02
+//@   modifies nothing
+//@   ensures blocking(result) == (c != nil && !has(c.srIDs, senderID))
+
+// HandleEvent reads the alignment state under the read lock and waits outside it.
+//@ func Operator.HandleEvent
+//@   property C02
+//@   nosafety
+//@   requires req != nil
